@@ -214,14 +214,16 @@ class Scheduler:
                 return
             i += 1
 
-    def finish_command(self):
-        """fair round-robin until the caller's command has returned"""
+    def finish_command(self, stalled=False):
+        """fair round-robin until the caller's command has returned; stalled: the run thread makes no progress
+        meanwhile (a handler that takes longer than the caller's 'wait at most one second' loops)"""
         while not self.caller_done:
             if self.steps > self.cap:
                 self.overrun = True
                 return
             self.step_caller()
-            self.step_worker()
+            if not stalled:
+                self.step_worker()
 
     def quiescent(self):
         return self.caller_done and (self.worker_gone() or self.worker_blocked())
